@@ -95,18 +95,40 @@ func TestLarge(t *testing.T) {
 	rep.SetExtra("large_slots", slots)
 	rep.SetExtra("large_seconds", int(time.Since(t0).Seconds()))
 
-	// (b) a pull of more than applyBatchSize values: s2 (empty) syncs with s1 (250 slots)
+	// (b) one exchange between a server above the range-split threshold of the index (ldiff.New(32, 256):
+	// more than 256 slots, so the comparison asks for the ELEMENTS of several sub-ranges in one request)
+	// and a non-empty client that shares some slots (same, older and newer values) and holds slots of
+	// its own; the pull exceeds applyBatchSize (several SetRaw batches on the client)
 	r2, err := newRun(w, dbs, cfg, rep)
 	if err != nil {
 		t.Fatal(err)
 	}
-	var many []mval
-	for i := 0; i < 250; i++ {
+	mk := func(k string, ts int64) mval {
+		return mval{Key: k, Dev: "d1", Ts: ts, Acc: "W", Rec: "r1", SigDev: true, SigAcc: true, Label: k + "|d1"}
+	}
+	var many, mine []mval
+	for i := 0; i < 320; i++ {
 		k := fmt.Sprintf("pull%03d", i)
-		many = append(many, mval{Key: k, Dev: "d1", Ts: int64(1 + i%9), Acc: "W", Rec: "r1", SigDev: true, SigAcc: true, Label: k + "|d1"})
+		many = append(many, mk(k, 5))
+		switch {
+		case i < 15:
+			mine = append(mine, mk(k, 5)) // the same value
+		case i < 30:
+			mine = append(mine, mk(k, 3)) // an older one
+		case i < 45:
+			mine = append(mine, mk(k, 8)) // a newer one
+		}
+	}
+	for i := 0; i < 20; i++ {
+		mine = append(mine, mk(fmt.Sprintf("only%03d", i), 4))
 	}
 	for _, b := range shuffledBatches(rnd, many, 30, 0) {
 		if res := r2.pushBatch("s1", b, fault{Point: "none"}); !res.Ok {
+			t.Fatal("push failed")
+		}
+	}
+	for _, b := range shuffledBatches(rnd, mine, 30, 0) {
+		if res := r2.pushBatch("s2", b, fault{Point: "none"}); !res.Ok {
 			t.Fatal("push failed")
 		}
 	}
@@ -125,9 +147,37 @@ func TestLarge(t *testing.T) {
 	for _, v := range many {
 		r2.received["s2"][v.name()] = v
 	}
-	r2.done = append(r2.done, step{Act: "Exchange", S: "s2", Peer: "s1"})
+	for _, v := range mine {
+		r2.received["s1"][v.name()] = v
+	}
+	r2.done = []step{{Act: "Large", S: fmt.Sprintf("slots=%d seed=%d", slots, vfutil.Seed())}, {Act: "Exchange", S: "s2", Peer: "s1"}}
+	// OneExchangeEqualises on the real rows
+	o1, e1 := r2.stores["s1"].observe()
+	o2, e2 := r2.stores["s2"].observe()
+	if e1 != nil || e2 != nil {
+		t.Fatal(e1, e2)
+	}
+	lackC, lackS := 0, 0
+	for id, d := range o1.Docs {
+		if c, ok := o2.Docs[id]; !ok || c.TimestampMicro < d.TimestampMicro {
+			lackC++
+		}
+	}
+	for id, d := range o2.Docs {
+		if c, ok := o1.Docs[id]; !ok || c.TimestampMicro < d.TimestampMicro {
+			lackS++
+		}
+	}
+	if lackC > 0 {
+		r2.violate("exchange-left-client-behind", fmt.Sprintf("after one undisturbed exchange with a server holding %d slots (above the index split threshold) the client lacks %d of the server's values", len(o1.Docs), lackC))
+	} else if lackS > 0 {
+		r2.violate("exchange-left-server-behind", fmt.Sprintf("after one undisturbed exchange the server lacks %d of the client's %d values", lackS, len(o2.Docs)))
+	}
 	h := map[string]string{}
 	for _, s := range []string{"s1", "s2"} {
+		if r2.failed {
+			break
+		}
 		if _, ok := r2.check(s, "Large multi-batch-pull"); !ok {
 			break
 		}
@@ -138,10 +188,10 @@ func TestLarge(t *testing.T) {
 		t.Fatal(r2.harness)
 	}
 	if !r2.failed && h["s1"] != h["s2"] {
-		r2.violate("exchange-hashes-differ", "after a pull of 250 values the advertised hashes differ")
+		r2.violate("exchange-hashes-differ", "after one undisturbed exchange between a 320-slot server and a 65-slot client the advertised hashes differ")
 	}
 	if n := r2.stores["s2"].sync.broadcasts.Load() - before; !r2.failed && n != 3 {
-		rep.DriftNote("a pull of 250 values was applied in %d SetRaw batches, the spec (ApplyBatch = 100) says 3", n)
+		rep.DriftNote("a pull of 290 values was applied in %d SetRaw batches, the spec (ApplyBatch = 100) says 3", n)
 	}
 	rep.Case("multi-batch-pull")
 	rep.AddReplayed(1)
